@@ -57,6 +57,10 @@ def generate(seed, tier):
     # a node behind NAT: it dials out, nobody can dial it and nobody learns its address from peer exchange
     if topo in ('pair', 'line', 'star') and rng.random() < 0.35:
         nodes[n - 1]['listen'] = False
+        if topo == 'star' and rng.random() < 0.6:
+            # every spoke is behind NAT: the hub is the only path between them for as long as the run lasts
+            for i in range(1, n):
+                nodes[i]['listen'] = False
     silent = {'node': rng.randrange(n), 'blocks': rng.randint(1, 3)} if rng.random() < 0.5 else None
     same_host = rng.random() < 0.25     # several nodes on one machine / behind one address: they differ in port only
     faulty = rng.random() < 0.5
